@@ -84,6 +84,13 @@ def handle : List String → String
         | some k => showOut (decodeRow O T X k rn row h)
         | none => "bad-op"
     | _, _ => "bad-op"
+  -- the same call on the exact-fraction instance (the model C03's read-back theorems are about): evidence only —
+  -- counts the rows on which a variance lies exactly on a limit and float64 decides differently
+  | ["rowx", rd, rn, cb, ext, ua, bits] =>
+    match parseInt? rn, extOf? ext, kindOf? rd with
+    | some rn, some ext, some k =>
+      showOut (decodeRow VarOps.exact T X k rn (parseBits bits) { cb := cb == "1", allowedExt := ext, canUPCA := ua == "1" })
+    | _, _, _ => "bad-op"
   | ["readers", fs] =>
     match fmtsOf? fs with
     | some fs => ",".intercalate ((multiReaders fs).map kindName)
